@@ -49,7 +49,8 @@ def _scale():
         return 1.0
 
 
-TOTAL_DOCS = {"quick": 96, "thorough": 2080}
+# documents per run (all shards together); VF_C29_DOCS=<n> overrides it (deeper runs on an idle machine)
+TOTAL_DOCS = {"quick": 96, "thorough": 640}
 
 
 def plan(tier):
@@ -60,7 +61,7 @@ def plan(tier):
         "budget_s": int((60 if quick else 1100) * _scale()),
         "timeout_s": int((900 if quick else 5400) * _scale()),
         "jail": True,
-        "min_nontrivial": 20 if quick else 400,
+        "min_nontrivial": 20 if quick else 150,
         "required_counters": ["programs", "outputs_compared"],
         "rule": "one case = one generated (document, job) pair accepted and run by the reference; distinct = "
                 "distinct document+job digest; all are non-trivial (>= 1 step). A divergence is attributed to listed "
@@ -346,11 +347,13 @@ def _short(v):
 
 def run_shard(sh: Shard) -> None:
     logging.getLogger("asyncio").setLevel(logging.CRITICAL)
-    ndocs = -(-TOTAL_DOCS[sh.tier] // sh.nshards)
+    total = int(os.environ.get("VF_C29_DOCS") or TOTAL_DOCS[sh.tier])
+    ndocs = -(-total // sh.nshards)
     hist, feats = {}, {}
     done = 0
     for i in range(ndocs * 3):
-        if done >= ndocs or sh.out_of_budget():
+        # the soft budget stops a shard only after its first two cases (a busy machine must not starve the minimum)
+        if done >= ndocs or (sh.out_of_budget() and done >= 2):
             break
         n = sh.shard + sh.nshards * i
         case = G.gen_case(sh.rng("doc", n), n)
